@@ -28,7 +28,7 @@ def check(run):
             p = vlib.VERIF + "/" + k["replay"]["program"]
             r = semrun.compare("c08kf", [p], src_stage="tast")[0]
             if r["status"] in ("go-stuck", "differ", "conv-error"):
-                run.known_finding(k["id"], "%s: a closure passed as an argument reaches a func-typed Go parameter as a struct value (%s): %s" % (k["id"], k["replay"]["program"], r["status"]))
+                run.known_finding(k["id"], "%s: %s (%s): %s" % (k["id"], k["what"][:140], k["replay"]["program"], r["status"]))
     n = stats.get("generated", 0)
     run.add_cases(n, stats.get("agree", 0), samples=[s[s.index("fn main") :][:700] for s in srcs[-3:]])
     run.cov["programs"] = n
